@@ -206,16 +206,26 @@ blake_const_arr!(BConst, u64, 512);
 blake_const_arr!(SConst, u32, 224);
 blake_const_arr!(SConst, u32, 256);
 
-fn new_bconst(bits: usize, key: &[u8], keyed: bool) -> Box<dyn HCtx> {
-    use hashing::blake2b::Context;
+fn new_bconst(bits: usize, key: &[u8], keyed: bool, marker: bool) -> Box<dyn HCtx> {
+    use hashing::blake2b::{Blake2b, Context};
     macro_rules! mk {
         ($b:literal) => {
-            Box::new(BConst::<$b, false>(if keyed { Context::<$b>::new_keyed(key) } else { Context::<$b>::new() }))
+            Box::new(BConst::<$b, false>(match (marker, keyed) {
+                (false, true) => Context::<$b>::new_keyed(key),
+                (false, false) => Context::<$b>::new(),
+                (true, true) => Blake2b::<$b>::new_keyed(key),
+                (true, false) => Blake2b::<$b>::new(),
+            }))
         };
     }
     macro_rules! mka {
         ($b:literal) => {
-            Box::new(BConst::<$b, true>(if keyed { Context::<$b>::new_keyed(key) } else { Context::<$b>::new() }))
+            Box::new(BConst::<$b, true>(match (marker, keyed) {
+                (false, true) => Context::<$b>::new_keyed(key),
+                (false, false) => Context::<$b>::new(),
+                (true, true) => Blake2b::<$b>::new_keyed(key),
+                (true, false) => Blake2b::<$b>::new(),
+            }))
         };
     }
     match bits {
@@ -305,16 +315,26 @@ fn new_bconst(bits: usize, key: &[u8], keyed: bool) -> Box<dyn HCtx> {
         _ => panic!("harness: blake2b const bits {} not instantiated", bits),
     }
 }
-fn new_sconst(bits: usize, key: &[u8], keyed: bool) -> Box<dyn HCtx> {
-    use hashing::blake2s::Context;
+fn new_sconst(bits: usize, key: &[u8], keyed: bool, marker: bool) -> Box<dyn HCtx> {
+    use hashing::blake2s::{Blake2s, Context};
     macro_rules! mk {
         ($b:literal) => {
-            Box::new(SConst::<$b, false>(if keyed { Context::<$b>::new_keyed(key) } else { Context::<$b>::new() }))
+            Box::new(SConst::<$b, false>(match (marker, keyed) {
+                (false, true) => Context::<$b>::new_keyed(key),
+                (false, false) => Context::<$b>::new(),
+                (true, true) => Blake2s::<$b>::new_keyed(key),
+                (true, false) => Blake2s::<$b>::new(),
+            }))
         };
     }
     macro_rules! mka {
         ($b:literal) => {
-            Box::new(SConst::<$b, true>(if keyed { Context::<$b>::new_keyed(key) } else { Context::<$b>::new() }))
+            Box::new(SConst::<$b, true>(match (marker, keyed) {
+                (false, true) => Context::<$b>::new_keyed(key),
+                (false, false) => Context::<$b>::new(),
+                (true, true) => Blake2s::<$b>::new_keyed(key),
+                (true, false) => Blake2s::<$b>::new(),
+            }))
         };
     }
     match bits {
@@ -446,6 +466,30 @@ where
 /// construct a context; `h` holds alg, and for BLAKE2: api ("dyn"|"const"), outlen (bytes) or bits, key, keyed
 pub fn new_ctx(h: &Ev) -> Box<dyn HCtx> {
     let alg = get_str(h, "alg");
+    // ctor = "marker" (default for the fixed hashes): through the algorithm marker type; "ctx": the context's own constructor
+    let ctor = h.get("ctor").and_then(|v| v.as_str()).unwrap_or("");
+    let marker = ctor == "marker";
+    if ctor == "ctx" {
+        match alg {
+            "sha1" => return Box::new(hashing::sha1::Context::new()),
+            "ripemd160" => return Box::new(hashing::ripemd160::Context::new()),
+            "sha224" => return Box::new(hashing::sha2::Context224::new()),
+            "sha256" => return Box::new(hashing::sha2::Context256::new()),
+            "sha384" => return Box::new(hashing::sha2::Context384::new()),
+            "sha512" => return Box::new(hashing::sha2::Context512::new()),
+            "sha512_224" => return Box::new(hashing::sha2::Context512_224::new()),
+            "sha512_256" => return Box::new(hashing::sha2::Context512_256::new()),
+            "sha3_224" => return Box::new(hashing::sha3::Context224::new()),
+            "sha3_256" => return Box::new(hashing::sha3::Context256::new()),
+            "sha3_384" => return Box::new(hashing::sha3::Context384::new()),
+            "sha3_512" => return Box::new(hashing::sha3::Context512::new()),
+            "keccak224" => return Box::new(hashing::keccak::Context224::new()),
+            "keccak256" => return Box::new(hashing::keccak::Context256::new()),
+            "keccak384" => return Box::new(hashing::keccak::Context384::new()),
+            "keccak512" => return Box::new(hashing::keccak::Context512::new()),
+            _ => {}
+        }
+    }
     match alg {
         "sha1" => Box::new(hashing::sha1::Sha1::new()),
         "ripemd160" => Box::new(hashing::ripemd160::Ripemd160::new()),
@@ -487,8 +531,8 @@ pub fn new_ctx(h: &Ev) -> Box<dyn HCtx> {
                         place(hashing::blake2s::ContextDyn::new(n), pl)
                     }
                 }
-                ("blake2b", "const") => new_bconst(get_usize_or(h, "bits", 8 * get_usize_or(h, "outlen", 0)), &key, keyed),
-                ("blake2s", "const") => new_sconst(get_usize_or(h, "bits", 8 * get_usize_or(h, "outlen", 0)), &key, keyed),
+                ("blake2b", "const") => new_bconst(get_usize_or(h, "bits", 8 * get_usize_or(h, "outlen", 0)), &key, keyed, marker),
+                ("blake2s", "const") => new_sconst(get_usize_or(h, "bits", 8 * get_usize_or(h, "outlen", 0)), &key, keyed, marker),
                 _ => panic!("harness: unknown blake2 api {}", api),
             }
         }
